@@ -78,6 +78,13 @@ class C12(C11):
             return
         s = R.S["servers"][R.ev_nid - 1]
         nd = node
+        if s["k"] == "sched" and R.ev_type != "shift_change":
+            # within a node a shift change that is due now comes before the node's other events due now:
+            # otherwise the node acts at t with the server count of the shift that has just ended
+            k = self.nshift.get(R.ev_nid, 0)
+            due = s["off"] if k == 0 else date_k(s["off"], s["ends"], k - 1)
+            if float(R.t) == due:
+                self.fail("node-event-before-due-shift-change", "node %s executed %s at t=%r although its shift change %d is due at that instant" % (R.ev_nid, R.ev_type, R.t, k))
         if R.ev_type == "shift_change" and s["k"] == "sched":
             self.pre = ("shift", {x.id_number: (x.busy, getattr(x.cust, "id_number", None), x.next_end_service_date, x.offduty,
                                                len(x.cust.data_records) if x.busy and x.cust else 0) for x in nd.servers})
